@@ -51,8 +51,9 @@ type MCase struct {
 		J int    `json:"j"`
 		K string `json:"k"`
 	} `json:"isync"` // HO.tla: inner source J ends (K) synchronously inside its subscription (J = 0: none)
-	Sync int    `json:"sync"` // source that ends synchronously inside its subscription (0 = none)
-	Raw  string `json:"-"`
+	SyncK string `json:"synck"` // "C" / "E": that source ends; "U": the downstream subscriber unsubscribes while that source is being subscribed
+	Sync  int    `json:"sync"`  // source that ends synchronously inside its subscription (0 = none)
+	Raw   string `json:"-"`
 }
 
 func ReadMCases(path string, fn func(i int, c *MCase)) (int, error) {
@@ -247,6 +248,7 @@ func replayMulti(idx int, c *MCase, mode string, out *[]Mismatch) {
 		}
 		add0(step, class, detail)
 	}
+	var dest ro.Subscriber[any] // the downstream subscriber (it can be cut from inside the subscription of a source)
 	ctls := make([]*Ctl, c.M.K)
 	srcs := make([]ro.Observable[any], c.M.K)
 	for i := range ctls {
@@ -256,7 +258,11 @@ func replayMulti(idx int, c *MCase, mode string, out *[]Mismatch) {
 	if c.Sync > 0 {
 		// this source ends synchronously, inside its own subscription (the first step carries the terminal)
 		k, n := c.Sync, c.Steps[0].N
-		ctls[k-1].OnSub = func(cs *ctlSub) { emitMulti(cs, k, 0, n) }
+		if c.SyncK == "U" {
+			ctls[k-1].OnSub = func(cs *ctlSub) { dest.Unsubscribe() }
+		} else {
+			ctls[k-1].OnSub = func(cs *ctlSub) { emitMulti(cs, k, 0, n) }
+		}
 	}
 	var o ro.Observable[any]
 	var err error
@@ -305,7 +311,8 @@ func replayMulti(idx int, c *MCase, mode string, out *[]Mismatch) {
 	for i, st := range c.Steps {
 		switch st.Do {
 		case "sub":
-			guard(i, func() { r.sub = o.SubscribeWithContext(base, r.observer()) })
+			dest = ro.NewSubscriber(r.observer())
+			guard(i, func() { r.sub = o.SubscribeWithContext(base, dest) })
 		case "push":
 			k := st.Src - 1
 			if cs := ctls[k].nth(0); cs != nil {
@@ -352,7 +359,7 @@ func replayMulti(idx int, c *MCase, mode string, out *[]Mismatch) {
 				add(i, "torn", fmt.Sprintf("source %d teardown ran %d times, expected %d (output closed=%v)", k+1, t, st.Exp.Torn[k], st.Exp.Closed))
 			}
 		}
-		if st.Do == "unsub" {
+		if st.Do == "unsub" || (c.SyncK == "U" && i == 0) {
 			r.unsubbed = true
 		}
 	}
